@@ -291,6 +291,7 @@ def modules_part(rep, quick):
     try:
         zoo = module_zoo(rep.seed)
         ck = OrbaxCheckpointer(checkpoint_dir=os.path.join(tmp, "orbax"))
+        ck.define_experiment("Env-v0", "c19", {})
         for name, (make, call) in zoo.items():
             for variant in (0, 1) if quick else (0, 1, 2, 3):
                 try:
@@ -319,14 +320,23 @@ def modules_part(rep, quick):
                     rep.violation(f"save_pickle:{name}:exception:{type(e).__name__}", f"pickle round trip of {name} raised {e!r}", {"kind": "module", "module": name, "variant": variant, "how": "pickle"})
                     m2 = None
                 # --- orbax written by the checkpointing logger, restored with the abstract state of a fresh module
-                path = os.path.join(tmp, "orbax", f"{name}-{variant}")
+                # (through the logger's public calls, one logger for all modules: every variant of a module type is another
+                # module OBJECT recorded under the same key at a later step, as in a second training run with that logger)
                 try:
-                    ck.save_model(path, m)
+                    if name not in ck.checkpoint_path:
+                        ck.define_checkpoint_frequency(name, 1)
+                    before = len(ck.checkpoint_path[name])
+                    ck.record_epoch(name, m, step=variant + 1)
+                    if len(ck.checkpoint_path[name]) != before + 1:
+                        raise tlc.MachineryError(f"record_epoch wrote {len(ck.checkpoint_path[name]) - before} checkpoints for {name} at interval 1 (C20 decides the cadence)")
+                    path = ck.checkpoint_path[name][-1]
                     fresh = make(rep.seed + 999)
                     abstract = jax.tree.map(lambda x: x, nnx.state(fresh))
                     restored = ocp.StandardCheckpointer().restore(path, abstract)
                     nnx.update(fresh, restored)
                     m3 = fresh
+                except tlc.MachineryError:
+                    raise
                 except Exception as e:
                     rep.violation(f"orbax:{name}:exception:{type(e).__name__}", f"Orbax save/restore of {name} raised {e!r}", {"kind": "module", "module": name, "variant": variant, "how": "orbax"})
                     m3 = None
